@@ -17,14 +17,11 @@
 from __future__ import annotations
 
 import io
-from typing import BinaryIO, Callable, List, Optional, TypeVar, Union
+from typing import BinaryIO, Callable, List, Optional
 
 from falcon.util import deprecated
 
 __all__ = ('BoundedStream',)
-
-
-Result = TypeVar('Result', bound=Union[bytes, List[bytes]])
 
 
 class BoundedStream(io.IOBase):
@@ -66,7 +63,7 @@ class BoundedStream(io.IOBase):
 
     next = __next__
 
-    def _read(self, size: Optional[int], target: Callable[[int], Result]) -> Result:
+    def _read(self, size: Optional[int], target: Callable[[int], bytes]) -> bytes:
         """Proxy reads to the underlying stream.
 
         Args:
@@ -86,11 +83,20 @@ class BoundedStream(io.IOBase):
         # NOTE(kgriffs): Default to reading all remaining bytes if the
         # size is not specified or is out of bounds. This behaves
         # similarly to the IO streams passed in by non-wsgiref servers.
-        if size is None or size == -1 or size > self._bytes_remaining:
+        if size is None or size < 0 or size > self._bytes_remaining:
             size = self._bytes_remaining
 
-        self._bytes_remaining -= size
-        return target(size)
+        # NOTE: The wrapped stream may return less than was asked for (a short
+        #   read, or a line that ends before the limit); only what was
+        #   actually consumed counts against the remaining bytes.
+        result = target(size)
+        if size > 0 and not result:
+            # NOTE: The wrapped stream ended before the expected content
+            #   length (e.g., the client hung up); nothing more to read.
+            self._bytes_remaining = 0
+        else:
+            self._bytes_remaining -= len(result)
+        return result
 
     def readable(self) -> bool:
         """Return ``True`` always."""
